@@ -4,7 +4,8 @@
    Part B  the statement's decisions (nrmse_ok, load_ok) against RMSE / sums
    Part C  the generating building as a stored document: it evaluates to the generating curve
    Part D  order statistics of the insertion sort; the generator is feasible for the optimiser's box
-   Part E  a temperature-independent document reports no load *)
+   Part E  a temperature-independent document reports no load
+   Part F  stored parameters close to the generating ones => curves close at every temperature of a range *)
 From Coq Require Import Reals Lra Psatz List Bool Arith Lia NArith.
 From V Require Import Model.Num Model.NumR Model.DailyCurve Model.Recovery Proofs.DailyCurveProofs.
 Import ListNotations.
@@ -717,4 +718,220 @@ Proof.
   unfold cool_part, eff. unfold RNum in *. rewrite Hx.
   assert (E : x_cdd_beta x = 0) by (destruct Hb as [Hb|Hb]; [rewrite Hb; exact Hs | exact Hb]).
   rewrite E. apply branch_zero_slope.
+Qed.
+
+(* ------------------------------------------------------------------------------------------ *)
+(* Part F: stored parameters close to the generating ones => curves close at EVERY temperature  *)
+(* ------------------------------------------------------------------------------------------ *)
+
+Lemma pos_lipschitz : forall u v : R, Rabs (pos u - pos v) <= Rabs (u - v).
+Proof.
+  intros u v. unfold pos, Rmax. destruct (Rle_dec u 0), (Rle_dec v 0); unfold Rabs;
+    repeat match goal with |- context [Rcase_abs ?x] => destruct (Rcase_abs x) end; lra.
+Qed.
+
+Lemma Rabs_mult_nonneg : forall a b : R, 0 <= a -> Rabs (a * b) = a * Rabs b.
+Proof. intros a b Ha. rewrite Rabs_mult, (Rabs_right a) by lra. reflexivity. Qed.
+
+Lemma hinge_close : forall b b' u u' : R, 0 <= b' ->
+  Rabs (b * pos u - b' * pos u') <= Rabs (b - b') * pos u + b' * Rabs (u - u').
+Proof.
+  intros b b' u u' Hb'.
+  replace (b * pos u - b' * pos u') with ((b - b') * pos u + b' * (pos u - pos u')) by ring.
+  eapply Rle_trans; [apply Rabs_triang|].
+  rewrite Rabs_mult, (Rabs_right (pos u)) by (apply Rle_ge, pos_nonneg).
+  rewrite (Rabs_mult_nonneg b' _ Hb').
+  pose proof (pos_lipschitz u u'). 
+  assert (b' * Rabs (pos u - pos u') <= b' * Rabs (u - u')) by (apply Rmult_le_compat_l; assumption).
+  lra.
+Qed.
+
+(* a smoothed side stays within beta k of the hinge through its asymptote's balance point *)
+Lemma smooth_close : forall beta k d : R, 0 <= beta -> 0 <= k ->
+  Rabs (branch lo beta k (pos d) - beta * pos (d - k)) <= beta * k.
+Proof.
+  intros beta k d Hb Hk.
+  assert (Hbk : 0 <= beta * k) by (apply Rmult_le_pos; assumption).
+  destruct (Req_dec k 0) as [K0|K0].
+  - subst k. rewrite branch_k0. replace (d - 0) with d by ring.
+    replace (beta * pos d - beta * pos d) with 0 by ring. rewrite Rabs_R0. lra.
+  - assert (Kpos : 0 < k) by lra.
+    destruct (Rle_dec d 0) as [D0|D0].
+    + rewrite (pos_of_nonpos d D0), (pos_of_nonpos (d - k)) by lra. rewrite (branch_0 lo Hlo).
+      replace (0 - beta * 0) with 0 by ring. rewrite Rabs_R0. lra.
+    + assert (Dpos : 0 <= d) by lra. rewrite (pos_of_nonneg d Dpos).
+      destruct (Rle_dec k d) as [KD|KD].
+      * rewrite (pos_of_nonneg (d - k)) by lra. rewrite branch_remainder.
+        pose proof (sm_pos lo k d) as S0. pose proof (sm_le_1 lo Hlo k d Kpos Dpos) as S1.
+        rewrite Rabs_right by (apply Rle_ge, Rmult_le_pos; lra).
+        replace (beta * k) with (beta * k * 1) at 2 by ring. apply Rmult_le_compat_l; assumption.
+      * rewrite (pos_of_nonpos (d - k)) by lra.
+        pose proof (branch_nonneg lo Hlo beta k d Hb Hk Dpos) as B0.
+        pose proof (branch_le_line lo Hlo beta k d Hb Hk Dpos) as B1.
+        replace (branch lo beta k d - beta * 0) with (branch lo beta k d) by ring.
+        rewrite Rabs_right by lra.
+        assert (beta * d <= beta * k) by (apply Rmult_le_compat_l; lra). lra.
+Qed.
+
+(* distance of a stored curve (closed form of C11: balance points after the smoothing shift) from a generating
+   building, at one temperature *)
+Definition side_gap (beta k bp_ref b_beta b_bp dist : R) : R :=
+  Rabs (b_beta - beta) * dist + beta * Rabs (b_bp - bp_ref) + beta * k.
+
+Lemma curve_vs_generator : forall (hbp hbeta hk cbp cbeta ck icpt : R) (p : building NR) (T : R),
+  0 <= hbeta -> 0 <= cbeta -> 0 <= hk -> 0 <= ck ->
+  Rabs (curve lo hbp hbeta hk cbp cbeta ck icpt T - gen_curve NR p T) <=
+    Rabs (icpt - b_base p)
+    + side_gap hbeta hk (hbp - hk) (b_hbeta p) (b_hbp p) (pos (b_hbp p - T))
+    + side_gap cbeta ck (cbp + ck) (b_cbeta p) (b_cbp p) (pos (T - b_cbp p)).
+Proof.
+  intros hbp hbeta hk cbp cbeta ck icpt [base bh bph bc bpc] T Hh Hc Hhk Hck.
+  unfold curve, gen_curve, gen_heat, gen_cool, side_gap. cbn [b_base b_hbeta b_hbp b_cbeta b_cbp].
+  rewrite !npos_pos.
+  change (@n_add NR) with Rplus. change (@n_mul NR) with Rmult. change (@n_sub NR) with Rminus.
+  set (H1 := branch lo hbeta hk (pos (hbp - T))). set (C1 := branch lo cbeta ck (pos (T - cbp))).
+  replace (icpt + H1 + C1 - (base + bh * pos (bph - T) + bc * pos (T - bpc)))
+    with ((icpt - base) + (H1 - bh * pos (bph - T)) + (C1 - bc * pos (T - bpc))) by ring.
+  eapply Rle_trans; [apply Rabs_triang|]. apply Rplus_le_compat.
+  - eapply Rle_trans; [apply Rabs_triang|]. apply Rplus_le_compat_l.
+    (* heating side *)
+    replace (H1 - bh * pos (bph - T))
+      with ((H1 - hbeta * pos (hbp - T - hk)) + - (bh * pos (bph - T) - hbeta * pos (hbp - hk - T))).
+    2:{ replace (hbp - hk - T) with (hbp - T - hk) by ring. ring. }
+    eapply Rle_trans; [apply Rabs_triang|]. rewrite Rabs_Ropp.
+    pose proof (smooth_close hbeta hk (hbp - T) Hh Hhk) as S1. fold H1 in S1.
+    pose proof (hinge_close bh hbeta (bph - T) (hbp - hk - T) Hh) as S2.
+    replace (bph - T - (hbp - hk - T)) with (bph - (hbp - hk)) in S2 by ring. lra.
+  - (* cooling side *)
+    replace (C1 - bc * pos (T - bpc))
+      with ((C1 - cbeta * pos (T - cbp - ck)) + - (bc * pos (T - bpc) - cbeta * pos (T - (cbp + ck)))).
+    2:{ replace (T - (cbp + ck)) with (T - cbp - ck) by ring. ring. }
+    eapply Rle_trans; [apply Rabs_triang|]. rewrite Rabs_Ropp.
+    pose proof (smooth_close cbeta ck (T - cbp) Hc Hck) as S1. fold C1 in S1.
+    pose proof (hinge_close bc cbeta (T - bpc) (T - (cbp + ck)) Hc) as S2.
+    replace (T - bpc - (T - (cbp + ck))) with (- (bpc - (cbp + ck))) in S2 by ring. rewrite Rabs_Ropp in S2. lra.
+Qed.
+
+Lemma pos_mono : forall a b : R, a <= b -> pos a <= pos b.
+Proof. intros a b H. unfold pos, Rmax. destruct (Rle_dec a 0), (Rle_dec b 0); lra. Qed.
+
+Lemma side_gap_n_R : forall beta k bp_ref b_beta b_bp dist : R,
+  side_gap_n NR beta k bp_ref b_beta b_bp dist = side_gap beta k bp_ref b_beta b_bp dist.
+Proof. reflexivity. Qed.
+
+Lemma side_gap_mono : forall beta k bp_ref b_beta b_bp d1 d2 : R, d1 <= d2 ->
+  side_gap beta k bp_ref b_beta b_bp d1 <= side_gap beta k bp_ref b_beta b_bp d2.
+Proof.
+  intros. unfold side_gap. pose proof (Rabs_pos (b_beta - beta)).
+  assert (Rabs (b_beta - beta) * d1 <= Rabs (b_beta - beta) * d2) by (apply Rmult_le_compat_l; assumption). lra.
+Qed.
+
+(* uniform over a temperature range *)
+Lemma uniform_gap : forall (x : fullx NR) (p : building NR) (Tlo Thi T : R),
+  good lo hi x -> Tlo <= T <= Thi ->
+  Rabs (curve lo (x_hdd_bp x) (x_hdd_beta x) (x_hdd_k x) (x_cdd_bp x) (x_cdd_beta x) (x_cdd_k x) (x_intercept x) T
+        - gen_curve NR p T) <= param_gap NR x p Tlo Thi.
+Proof.
+  intros x p Tlo Thi T (G1 & G2 & G3 & G4 & G5) [H1 H2].
+  eapply Rle_trans; [apply curve_vs_generator; assumption|].
+  unfold param_gap. change (side_gap_n NR) with side_gap. rewrite !npos_pos.
+  change (@n_add NR) with Rplus. change (@n_sub NR) with Rminus. change (@n_abs NR) with Rabs.
+  apply Rplus_le_compat; [apply Rplus_le_compat_l|].
+  - apply side_gap_mono. apply pos_mono. lra.
+  - apply side_gap_mono. apply pos_mono. lra.
+Qed.
+
+(* ... for a stored document (C11: admissible, off the corner): its prediction at every temperature of the range *)
+Lemma document_gap : forall (c : coeffs NR) (tc : tconstr NR) (p : building NR) (Tlo Thi T : R),
+  admissible lo hi c tc -> off_corner lo hi c tc -> Tlo <= T <= Thi ->
+  Rabs (predicted lo hi c tc T - gen_curve NR p T) <= param_gap NR (eff lo hi c tc) p Tlo Thi.
+Proof.
+  intros c tc p Tlo Thi T A O HT.
+  rewrite (predicted_curve lo hi Hlo Hhi c tc A O T).
+  destruct (eff_good lo hi c tc A) as (_ & G & I). unfold RNum in *. rewrite <- I.
+  apply uniform_gap; assumption.
+Qed.
+
+(* the generating curve does not depend on the balance point of a side without load *)
+Lemma free_bp_same_curve : forall (p : building NR) (x : fullx NR) (T : R),
+  (gen_curve NR (free_bp NR p x) T = gen_curve NR p T :> R).
+Proof.
+  intros [base bh bph bc bpc] x T. unfold free_bp, gen_curve, gen_heat, gen_cool.
+  cbn [b_base b_hbeta b_hbp b_cbeta b_cbp].
+  change (@n_eqb NR bh n_zero) with (Reqb bh 0). change (@n_eqb NR bc n_zero) with (Reqb bc 0).
+  change (@n_add NR) with Rplus. change (@n_mul NR) with Rmult.
+  destruct (Reqb bh 0) eqn:Eh; destruct (Reqb bc 0) eqn:Ec;
+    try (apply Reqb_true in Eh; subst bh); try (apply Reqb_true in Ec; subst bc); ring.
+Qed.
+
+(* pointwise within D  ->  RMSE within D *)
+Lemma sse_pointwise : forall (D : R) (f g : list R), 0 <= D ->
+  Forall2 (fun a b => Rabs (a - b) <= D) f g -> sse NR f g <= INR (length f) * (D * D).
+Proof.
+  intros D f g HD H. induction H as [|a b f g Hab _ IH].
+  - cbn. lra.
+  - rewrite sse_cons. cbn [length]. rewrite S_INR.
+    assert ((a - b) * (a - b) <= D * D).
+    { pose proof (Rabs_pos (a - b)) as P.
+      replace ((a - b) * (a - b)) with (Rabs (a - b) * Rabs (a - b)).
+      - apply Rmult_le_compat; assumption.
+      - unfold Rabs. destruct (Rcase_abs (a - b)); ring. }
+    lra.
+Qed.
+
+Lemma rmse_pointwise : forall (D : R) (f g : list R), 0 <= D ->
+  Forall2 (fun a b => Rabs (a - b) <= D) f g -> RMSE f g <= D.
+Proof.
+  intros D f g HD H. pose proof (sse_pointwise D f g HD H) as S0. unfold RMSE.
+  apply sqrt_le_of_sq; [exact HD|].
+  destruct (length f) as [|n] eqn:En.
+  - unfold Rdiv. cbn [INR]. rewrite Rinv_0, Rmult_0_r. pose proof (sq_nonneg D). lra.
+  - assert (Hn : 0 < INR (S n)) by (apply lt_0_INR; lia).
+    apply Rmult_le_reg_r with (INR (S n)); [exact Hn|].
+    unfold Rdiv. rewrite Rmult_assoc, Rinv_l by lra. lra.
+Qed.
+
+(* the out-of-sample half from the stored parameters: every weather year inside the range *)
+Lemma out_of_sample_from_parameters : forall (c : coeffs NR) (tc : tconstr NR) (p : building NR)
+    (Tlo Thi lim m : R) (T2 : list R),
+  admissible lo hi c tc -> off_corner lo hi c tc -> 0 <= lim -> 0 <= m ->
+  Forall (fun t => Tlo <= t <= Thi) T2 ->
+  param_gap NR (eff lo hi c tc) (free_bp NR p (eff lo hi c tc)) Tlo Thi <= lim * m ->
+  nrmse_ok NR lim (map (predicted lo hi c tc) T2) (map (gen_curve NR p) T2) m = true.
+Proof.
+  intros c tc p Tlo Thi lim m T2 A O Hl Hm HT HD.
+  apply nrmse_ok_spec; [exact Hl | exact Hm |].
+  set (D := param_gap NR (eff lo hi c tc) (free_bp NR p (eff lo hi c tc)) Tlo Thi) in *.
+  assert (D0 : 0 <= D).
+  { destruct T2 as [|t0 T2'].
+    - (* no day at all: the gap is a sum of non-negative terms; use any temperature of the range if there is one *)
+      unfold D, param_gap. change (side_gap_n NR) with side_gap. unfold side_gap. rewrite !npos_pos.
+      destruct (eff_good lo hi c tc A) as (_ & (G1 & G2 & G3 & G4 & G5) & _). unfold RNum in *.
+      change (@n_add NR) with Rplus. change (@n_abs NR) with Rabs.
+      repeat apply Rplus_le_le_0_compat; try apply Rabs_pos;
+        try (apply Rmult_le_pos; try apply Rabs_pos; try apply pos_nonneg; assumption).
+    - inversion HT as [|? ? Ht0 _]; subst.
+      eapply Rle_trans; [apply Rabs_pos|].
+      apply (document_gap c tc (free_bp NR p (eff lo hi c tc)) Tlo Thi t0 A O Ht0). }
+  eapply Rle_trans; [|exact HD]. apply rmse_pointwise; [exact D0|].
+  induction T2 as [|t T2 IH]; [constructor|].
+  inversion HT as [|? ? Ht HT']; subst. cbn [map]. constructor; [|apply IH; exact HT'].
+  rewrite <- (free_bp_same_curve p (eff lo hi c tc) t).
+  apply document_gap; assumption.
+Qed.
+
+(* the 7-vector of a two-sided unsmoothed document strictly inside the temperature range *)
+Lemma effective_both : forall base bh bph bc bpc Tmin Tmax Tminseg Tmaxseg : R,
+  Tmin < bph -> bph <= bpc -> bpc < Tmax ->
+  effective_x NR (Build_coeffs NR HddTiddCdd base (Some bph) (Some bh) None (Some bpc) (Some bc) None)
+                 (Build_tconstr NR Tmin Tmax Tminseg Tmaxseg)
+  = Some (Build_fullx NR bph bh 0 bpc bc 0 base).
+Proof.
+  intros * I1 I3 I5. unfold effective_x. cbn. unfold RNum.
+  destruct (fix_ordered lo hi bph bh 0 bpc bc 0 base Tmin Tmax I3)
+    as (hb' & hk' & cb' & ck' & E & _ & _ & K1 & K2 & _ & _ & _ & _ & Keep).
+  unfold mkx in E. rewrite E.
+  destruct Keep as [Eb1 Eb2]; [right; lra|]. subst hb' cb'.
+  assert (hk' = 0) by (destruct K1; assumption). assert (ck' = 0) by (destruct K2; assumption). subst hk' ck'.
+  reflexivity.
 Qed.
